@@ -98,6 +98,7 @@ def tasks(tier):
     ts = [{"tier": tier, "t": ["lemma", n, era]} for n in ("civil-inverts-ordinal", "fields-valid", "roundtrip") for era in range(25)]
     ts += [{"tier": tier, "t": ["lemma", n, -1]} for n in ("jan1", "weekday")]
     ts += [{"tier": tier, "t": [k]} for k in ("add-sub", "diff", "dur-arith", "dur-getters")]
+    ts += [{"tier": tier, "t": ["dur-getters-fp", g]} for g in ("getHours", "getMinutes", "getSeconds", "getMilliseconds")]
     modes = ["none", "offset+dd:dd", "offsetd:dd"] + list(ZONES_QUICK if tier == "quick" else ZONES_THOROUGH)
     if tier != "quick":
         modes += ["offset+d:dd", "offsetdd:dd"]
@@ -249,18 +250,47 @@ def _harnesses(t, runner, tier):
             return obs
         return [Harness(id=f"C11/dur-arith@{runner}", vars={"d": D, "d2": D2}, pre=_d_pre(D) + _d_pre(D2), run=run, witness=wit, max_paths=100)]
 
-    if kind == "dur-getters":
+    if kind in ("dur-getters", "dur-getters-fp"):
         tr = lambda a, k: z3.If(a >= 0, a / k, -((-a) / k))  # noqa: E731
-        ps = [(g, common.make_program(f"d.{g}()", runner), w) for g, w in
-              (("getHours", tr(D, 3600 * US)), ("getMinutes", tr(D, 60 * US)), ("getSeconds", tr(D, US)), ("getMilliseconds", tr(D, 1000)))]
+        units = (("getHours", 3600 * US), ("getMinutes", 60 * US), ("getSeconds", US), ("getMilliseconds", 1000))
+        ps = [(g, common.make_program(f"d.{g}()", runner), k) for g, k in units]
+        from ..sym.core import _attr
 
         def run(vals):
             b = {"d": du(D, vals)}
             obs = []
-            for g, p, w in ps:
+            for g, p, k in ps:
                 kd, r = common.outcome(lambda: p.evaluate(dict(b)))
-                obs.append(Ob(f"C11/dur/{g}@{runner}", tm(r) == w) if kd == "value" else Ob(f"C11/dur/{g}-{kd}@{runner}", z3.BoolVal(False), note=repr(r)[:100]))
+                obs.append(Ob(f"C11/dur/{g}@{runner}", tm(r) == tr(D, k)) if kd == "value" else Ob(f"C11/dur/{g}-{kd}@{runner}", z3.BoolVal(False), note=repr(r)[:100]))
             return obs
+
+        # second harness: the duration is a 64-bit vector, so that an implementation going through total_seconds() is
+        # followed in faithful binary floating point (|d| <= 2**53 us) instead of the exact-rational abstraction; it
+        # raises obligations only for results that were computed that way
+        DB = z3.BitVec("d", 64)
+        DI = z3.BV2Int(DB, True)
+
+        def signed(v):
+            return v - 2**64 if v >= 2**63 else v
+
+        def mk_fp(g, p, k):
+            def run_fp(vals):
+                b = {"d": ct.DurationType(T.make_timedelta(mk(SInt, DI, signed(vals["d"]), bv=DB)))}
+                kd, r = common.outcome(lambda: p.evaluate(dict(b)))
+                rb = _attr(r, int, "_bv") if kd == "value" else None
+                if rb is not None:
+                    w = rb.size()
+                    return [Ob(f"C11/dur/{g}/binary-float-path@{runner}", rb == z3.SignExt(w - 64, DB) / z3.BitVecVal(k, w))]
+                # not computed through binary floating point on this path: the exact obligation of C11/dur-getters applies
+                return [Ob(f"C11/dur/{g}/no-binary-float-on-path@{runner}", z3.BoolVal(kd == "value"), note=kd)]
+            h = Harness(id=f"C11/dur-getters-fp/{g}@{runner}", vars={"d": DB}, pre=[DB >= -DMAX, DB <= DMAX], run=run_fp,
+                        witness=lambda vals: wit({"d": signed(vals["d"])}), max_paths=6, timeout_ms=10_000)
+            h.max_seconds = 200
+            h.cvc5_ms = 40_000  # QF_BVFP with division: cvc5 finds the counterexamples z3 does not reach
+            return h
+        if kind == "dur-getters-fp":
+            kind = "dur-getters"  # same oracle
+            return [mk_fp(g, p, k) for g, p, k in ps if g == t[1]]
         return [Harness(id=f"C11/dur-getters@{runner}", vars={"d": D}, pre=_d_pre(D), run=run, witness=wit, max_paths=100)]
 
     if kind == "getters":
